@@ -34,8 +34,8 @@ ASSUMPTIONS = [
     'when the reciprocal hyponym relations are declared (otherwise "without hyponyms" is '
     'ambiguous); for pos a/s both the merged and the exact-pos result are accepted (the docs of '
     'roots/leaves say "only the specified part of speech", the quantifier says a/s merge)',
-    'lowest_common_hypernyms and taxonomy_depth are compared on DAGs only; "depth" = max_depth '
-    '(docs: "furthest from the root")',
+    'lowest_common_hypernyms is compared on DAGs only; "depth" = max_depth (docs: "furthest from '
+    'the root"); taxonomy_depth = the largest max_depth of the part of speech, on every graph',
     'simulate_root on cyclic graphs: only termination, no error, genuine path, symmetry, '
     'lowest subset of common (the statement does not say where the simulated root attaches '
     'when a chain ends inside a cycle)',
@@ -115,7 +115,10 @@ def _check_graph(lab, i, desc, out):
                 disc('leaves-differ', f'leaves(pos={pos})', exp, _names(idx, got))
         if pos is not None:
             got = call(f'taxonomy_depth(pos={pos})', T.taxonomy_depth, w, pos)
-            if got is not None and not cyclic:
+            if got is not None:
+                # the longest maximal simple chain of the part of speech = the largest
+                # max_depth; defined on cyclic graphs too (known finding there, see
+                # known_findings.json: a shortcut that is only sound on DAGs)
                 exp = G.longest_chain(g, of_pos(range(n), pos))
                 if got != exp:
                     disc('taxonomy-depth-differs', f'taxonomy_depth(pos={pos})', exp, got)
